@@ -259,6 +259,7 @@ def run(ctx: Ctx, rep: Report) -> None:
     check_bulkget_result(ctx, rep, client)
     rep.adopt_rules(ctx.sub_run("c03", rep), "C04-R8", ["C03-R2", "C03-R3"])
     rep.adopt_rules(ctx.sub_run("c15", rep), "C04-R9", ["C15-R4"])
+    rep.adopt_rules(ctx.sub_run("c12", rep), "C04-R9", ["C12-R4"], containing="only in Report")
     # over SNMPv1 a missing object is signalled by error-status noSuchName: construct() has to map it to NoSuchOID
     rep.adopt_rules(ctx.sub_run("c08", rep), "C04-R5", ["C08-R2"], containing="noSuchName")
     rep.adopt_rules(ctx.sub_run("c08", rep), "C04-R5", ["C08-R2"], containing="builds NoSuchOID")
